@@ -95,7 +95,7 @@ def coverage_protos():
                 Packet('Empty', [])],
                gen.base_options('Ca', {'LittleEndian': 'true', 'StringPrefixLenType': 'u8', 'FixedStringPadChar': "'0'"}), md, tag='Ca')
     out.append(p1)
-    p2 = Proto([Packet('RootCb', [dyn('Kind'), Field('match', 'Body', key='Kind', pairs=[(['A'], 'Pa'), (['B', 'C'], 'Pb')]),
+    p2 = Proto([Packet('RootCb', [dyn('Kind'), Field('match', 'Body', key='Kind', pairs=[(['A'], 'Pa'), (['B', 'C'], 'Pb'), (['K%d' % n for n in range(10)], 'Pa'), (['L%d' % n for n in range(15)], 'Pb'), (['M,%d' % n for n in range(6)], 'Pa')]),
                                   Field('cksum', 'Check', ntype='u16', algo='CRC16', prefixed=False, typed=True, doc='sum')], root=True),
                 Packet('Pa', [fix('Na', 3, pad=('right', None)), fix('Nb', 3, pad=('left', 'nul'))]),
                 Packet('Pb', [Field('char', 'Side'), Field('char', 'Sides', repeat=True)])],
@@ -322,7 +322,8 @@ def c09(ctx):
             continue
         t2 = toks
         for n, (i, mode, cls) in enumerate(reversed(picks)):
-            t2 = with_comment(t2, i, mode, '// r%d' % (len(picks) - n))
+            # every third text repeats ONE comment text at all its positions (separator lines, repeated TODOs)
+            t2 = with_comment(t2, i, mode, '// ---- section ----' if len(picks) % 3 == 0 else '// r%d' % (len(picks) - n))
         text, _ = dslprint.layout(t2, rng.choice(['pretty', 'tabs']), rng)
         if not selfcheck(ctx, text, t2):
             continue
